@@ -346,6 +346,9 @@ func genFixedCase(t *rapid.T) *FixedCase {
 		if rapid.IntRange(0, 5).Draw(t, "longraw") == 0 {
 			// trailing bytes are ignored, however many: whole further words, odd tails
 			l = size + rapid.SampledFrom([]int{3, 4, 7, 8, 9, 15, 16, 17, 24, 32, 100, 255}).Draw(t, "rawextra")
+			if rapid.IntRange(0, 9).Draw(t, "rawhuge") == 6 {
+				l = 65536 + rapid.IntRange(0, size+2).Draw(t, "rawhugeextra") // lengths that do not fit 16 bits
+			}
 		}
 		c.Raw = rapid.SliceOfN(rapid.Byte(), l, l).Draw(t, "raw")
 		if c.Raw == nil {
@@ -500,7 +503,7 @@ func enumC17(r *run) bool {
 	return true
 }
 
-const ruleC17 = "complete enumeration of the finite value domains (AudioLevel 2x256, TransportCC 2^16, PlayoutDelay boundary rows and out-of-range values in quick / all 2^24 pairs in thorough, AbsSendTime 2^16 spread values in quick / all 2^24 in thorough, every input length 0..size+2 with preloaded receivers) plus rapid-drawn cases for the 64-bit domains (AbsSendTime 64-bit timestamps, AbsCaptureTime timestamps with/without int64 offsets) and random decode inputs of every length 0..size+2 and of size+{3..255} (a third of them with runs of 0x00/0xFF, e.g. a zero offset field); oracle: hand-written bit layouts of the specifications, error and no bytes for out-of-range values, decode independent of previous receiver content, trailing bytes ignored, short input rejected, Unmarshal(Marshal(v)) = v, and Marshal gives the same bytes again after the caller overwrote and appended to the buffer an earlier call returned; a decoded AbsCaptureTime offset is changed through its pointer and the same bytes decoded again. Every case is non-trivial (each checks one value or one input against the layout); distinct = enumerated values are distinct by construction, drawn ones by FNV-64 of the JSON case"
+const ruleC17 = "complete enumeration of the finite value domains (AudioLevel 2x256, TransportCC 2^16, PlayoutDelay boundary rows and out-of-range values in quick / all 2^24 pairs in thorough, AbsSendTime 2^16 spread values in quick / all 2^24 in thorough, every input length 0..size+2 with preloaded receivers) plus rapid-drawn cases for the 64-bit domains (AbsSendTime 64-bit timestamps, AbsCaptureTime timestamps with/without int64 offsets) and random decode inputs of every length 0..size+2 and of size+{3..255}, occasionally 65536+{0..size+2} (a third of them with runs of 0x00/0xFF, e.g. a zero offset field); oracle: hand-written bit layouts of the specifications, error and no bytes for out-of-range values, decode independent of previous receiver content, trailing bytes ignored, short input rejected, Unmarshal(Marshal(v)) = v, and Marshal gives the same bytes again after the caller overwrote and appended to the buffer an earlier call returned; a decoded AbsCaptureTime offset is changed through its pointer and the same bytes decoded again. Every case is non-trivial (each checks one value or one input against the layout); distinct = enumerated values are distinct by construction, drawn ones by FNV-64 of the JSON case"
 
 func TestC17(t *testing.T) {
 	r := begin(t, "C17", "exploration", ruleC17)
